@@ -168,6 +168,11 @@ def run(eng, rep, tier):
                  and bool(s2.ret.alias & ev.result.alias) for ev in cs)
         ob.decide("R7", "C10.3", f2, "delegates-to:" + target, ok, "%s delegates to %s" % (dunder, target),
                   "%s does not delegate to %s with the same operands" % (dunder, target), s2, site=site_of(prog, f2, f2.node))
+    from . import optid
+    n_opt = optid.check(eng, rep, "C10", "C10.4", [(prog.method("CFG", "__init__"), CFG)], names.ID_CLASSES)
+    if n_opt < 1:
+        rep.error("R6", "C10.4", CFG, "optional-identifier-tested-against-None",
+                  "the optional start symbol of CFG.__init__ was not found (%d)" % n_opt)
     names.check(eng, rep, "C10")
     rep.stats.update(eng.stats())
     rep.floor = 25
